@@ -118,6 +118,15 @@ func runPeerSessionWith(sim *core.Sim, pp PeerPlan, opts peerOpts) *peerRun {
 	pr := &peerRun{lib: lib, res: &sessResult{}, peerRaw: map[string][]byte{}}
 
 	cfg := pp.Peer
+	// An FQ out of turn crosses the Session's own FF on the wire. That is only
+	// harmless where the link buffers a line in each direction (TCP, a TNC);
+	// on a link that holds a byte or two both writers would wait for each
+	// other for ever, and the peer, not the Session, would be to blame.
+	for _, w := range []int{pp.Link.AB.Window, pp.Link.BA.Window} {
+		if w > 0 && w < 16 {
+			cfg.HastyFQ = false
+		}
+	}
 	cfg.Master = !pp.LibMaster
 	cfg.MyCall = orStr(cfg.MyCall, "P4EER")
 	cfg.TheirCall = strings.ToUpper(pp.Lib.Call)
